@@ -909,6 +909,24 @@ func runNegoCaseOnce(ctx *Ctx, nc negoCase, dialTimeout time.Duration) (deadline
 	default:
 		adopted = true
 		version = dr.cl.Version()
+		// supporting evidence for the model's store: in the 1.0 fallback the client's version field is
+		// &kmip.V1_0, elsewhere a variable of its own (Lean: fallback_aliases_exported_variable). Not compared.
+		func() {
+			saved := kmip.V1_0
+			defer func() { kmip.V1_0 = saved }()
+			kmip.V1_0 = cliV(9, 9)
+			aliased := dr.cl.Version() != version
+			kmip.V1_0 = saved
+			cls, _ := nc.scriptClass()
+			switch {
+			case aliased && !nc.lib && cls == "unsupported" && nc.enforce == nil:
+				ctx.Res.Count("nego.note=fallback-version-aliases-kmip.V1_0")
+			case aliased:
+				ctx.Res.Count("nego.note=non-fallback-version-aliases-kmip.V1_0")
+			case !nc.lib && cls == "unsupported" && nc.enforce == nil:
+				ctx.Res.Count("nego.note=fallback-version-not-aliased")
+			}
+		}()
 		// a client that negotiated again later (on a reconnection, in a clone) would now get another answer
 		afterDial()
 		impl = "ok " + cliVerStr(version) + " later=" + negoLater(ctx, ep, obs, dr.cl, version, line) + " disc=" + disc
@@ -1851,8 +1869,18 @@ func respCase(env *respEnv, api *respAPI, script cliRT, inject bool) {
 	}
 }
 
-// respDialCase: the discovery exchange of Dial against an arbitrary response.
+// respDialCase: the discovery exchange of Dial against an arbitrary response. (A Dial that runs into the
+// harness deadline is evaluated again with a long one, see runNegoCase.)
 func respDialCase(ctx *Ctx, clientVers []cliVer, script cliRT, inject bool) {
+	if respDialCaseOnce(ctx, clientVers, script, inject, 5*time.Second) {
+		ctx.Res.Count("resp.dial-deadline-retried")
+		if respDialCaseOnce(ctx, clientVers, script, inject, 90*time.Second) {
+			ctx.Res.Fail("resp: Dial did not return within 90 s (harness deadline) at: " + ctx.current)
+		}
+	}
+}
+
+func respDialCaseOnce(ctx *Ctx, clientVers []cliVer, script cliRT, inject bool, dialTimeout time.Duration) (deadline bool) {
 	ep := &cliEndpoint{}
 	obs := &cliObs{}
 	if inject {
@@ -1864,6 +1892,9 @@ func respDialCase(ctx *Ctx, clientVers []cliVer, script cliRT, inject bool) {
 		})
 	} else {
 		ep.setHandler(func(req *kmip.RequestMessage) *kmip.ResponseMessage {
+			if script.echo {
+				return cliEchoRequest
+			}
 			if script.fail {
 				return nil
 			}
@@ -1882,12 +1913,21 @@ func respDialCase(ctx *Ctx, clientVers []cliVer, script cliRT, inject bool) {
 		cl  *kmipclient.Client
 		err error
 	}
-	dctx, cancel := context.WithTimeout(context.Background(), 5*time.Second)
+	if script.echo {
+		dialTimeout = 300 * time.Millisecond // the only way out: the context (see respCase)
+		ctx.Res.Count("resp.dial-server-answers-with-a-request-message")
+	}
+	dctx, cancel := context.WithTimeout(context.Background(), dialTimeout)
 	dr, pn := guard("Dial", func() dialRes {
 		cl, err := kmipclient.DialContext(dctx, "pipe", opts...)
 		return dialRes{cl, err}
 	})
+	expired := dctx.Err() != nil
 	cancel()
+	if !script.echo && pn == "" && dr.err != nil && (expired || errors.Is(dr.err, context.DeadlineExceeded)) {
+		ep.shutdown(ctx)
+		return true
+	}
 	events := obs.take()
 	seen := script
 	received := inject && !script.fail
@@ -1896,7 +1936,7 @@ func respDialCase(ctx *Ctx, clientVers []cliVer, script cliRT, inject bool) {
 		if err != nil {
 			ctx.Res.Fail("resp: " + err.Error())
 			ep.shutdown(ctx)
-			return
+			return false
 		}
 		seen = a
 		received = !a.fail
@@ -1944,6 +1984,7 @@ func respDialCase(ctx *Ctx, clientVers []cliVer, script cliRT, inject bool) {
 	ctx.Add(line, impl, len(seen.items) > 0, "C12,C13")
 	ctx.Res.Count("resp.api=dial")
 	ctx.Res.Count("resp.result=" + strings.SplitN(impl, " ", 2)[0])
+	return false
 }
 
 // respItems enumerates the abstract items for a requested operation.
